@@ -1,6 +1,12 @@
-HOOK_COMMITS = ["9c96253"]
+HOOK_COMMITS = ["9c96253", "e0c8558"]
 
 ENGINES = [
+    {"name": "lin-trace", "path": "spec/LinTrace.tla + harness/cmd/inostress", "serves_properties": ["C07", "C05", "C06"],
+     "kind_free_text": "concurrent stress programs under -race; recorded call/return histories are checked for linearizability by TLC"},
+    {"name": "ops-trace", "path": "spec/Ops.tla + spec/OpsTrace.tla + spec/MC_Ops.tla + harness/cmd/opsrun + harness/cmd/extract", "serves_properties": ["C15", "C16"],
+     "kind_free_text": "real table functions evaluated on complete input spaces, compared with the TLA+ tables by TLC"},
+    {"name": "diff-trace", "path": "spec/Diff.tla + spec/DiffTrace.tla + harness/cmd/diffrun", "serves_properties": ["C20"],
+     "kind_free_text": "ztest.Diff / DiffMatch evaluated on enumerated inputs, judged by a TLA+ oracle in TLC"},
     {"name": "ino-trace", "path": "spec/InotifyTrace.tla + spec/Ideal.tla + harness/cmd/inorun + gen/gen.py",
      "serves_properties": ["C01", "C02", "C03", "C04", "C05", "C06", "C08", "C09", "C10", "C11", "C12", "C13", "C14"],
      "kind_free_text": "scenarios (fs operations, API calls, consumer steps; seeded families and bounded-exhaustive enumerations) are replayed on the real "
@@ -35,12 +41,29 @@ CHECKS = {
     "C14": _c("2-4 watchers with different buffer sizes observe one history while another watcher adds/removes/closes; every stream is judged against the same specification; cap(Events) must equal the request.", _NOTE, "DESIGN.md 6 C14"),
 }
 
+CHECKS.update({
+    "C07": _c("Random concurrent programs (2-4 API goroutines, 2 file system goroutines, varied consumer pace, GOMAXPROCS and buffer) run under the race detector; TLC searches a "
+              "linearization of every recorded call/return history against the sequential watch-set specification (LinTrace.tla); race reports, panics and hangs are violations. "
+              "Reader-lag interleavings that a sequential driver can force are replayed as scenarios and judged by the sequential result specification.",
+              "Trusted: TLC, the Go race detector as observation channel for data races. Schedules are those the Go scheduler produced; the model of the design is exhaustive only for small constants.",
+              "DESIGN.md 6 C07", technique="TLA+ linearizability trace spec: TLC searches linearization points of recorded concurrent histories; plus trace validation of forced interleavings", engine="lin-trace"),
+    "C15": _c("The real inotify translation (hook), the kernel-side mask of real marks for all 2^9 requested op sets, and the kqueue / Windows table functions compiled from the working "
+              "tree's source are evaluated on all 2^16 / 2^11 / 2^13 flag combinations; TLC compares every record with Ops.tla and checks that the recorded input sets are complete; "
+              "design theorems (union homomorphism, request table exactness) are checked by TLC over all inputs (MC_Ops.tla).",
+              "Trusted: TLC; native constants as in golang.org/x/sys; for kqueue/Windows the functions are the working tree's source text compiled on Linux against constant stubs.",
+              "DESIGN.md 6 C15", technique="TLA+ executable table specification evaluated by TLC over the complete input space, compared with records of the real functions", engine="ops-trace"),
+    "C16": _c("Op.Has / Event.Has over all 2^16 low Op values (plus sampled high ones) x 40 probe sets, Op.String over the same values, Event.String over name shapes, compared by TLC with Ops.tla; "
+              "injectivity on defined bits and blindness to undefined bits are checked as theorems.",
+              "Trusted: TLC; strconv.Quote is the uninterpreted quoting function.", "DESIGN.md 6 C16",
+              technique="TLA+ executable specification of the renderings evaluated by TLC over the complete low input space, compared with records of the real functions", engine="ops-trace"),
+    "C20": _c("ztest.Diff on all pairs of line sequences over {a,b,c} up to 4 (quick) / 5 (thorough) lines plus seeded long random texts, ztest.DiffMatch on all bounded patterns x texts; every "
+              "output is parsed into hunks and judged by the TLA+ oracle Diff.tla (empty iff equal, hunks apply to the first text giving the second, headers agree, context <= 3, matcher semantics).",
+              "This is a pure function: the specification is an executable oracle and TLC its evaluator; no state space beyond the patch automaton. Trusted: TLC, the driver's hunk parser.",
+              "DESIGN.md 6 C20", technique="TLA+ executable oracle (Diff.tla) evaluated by TLC on an exhaustively enumerated input space", engine="diff-trace"),
+})
+
 NOT_APPLICABLE = {
-    "C07": "check under construction (linearizability trace spec + stress driver); not claimed yet",
-    "C15": "check under construction (Ops.tla table oracle); not claimed yet",
-    "C16": "check under construction (Ops.tla renderings oracle); not claimed yet",
     "C17": "check under construction (kqueue backend on a simulated kqueue); not claimed yet",
     "C18": "check under construction (kqueue backend on a simulated kqueue); not claimed yet",
     "C19": "check under construction (recursive watch semantics in the trace spec); not claimed yet",
-    "C20": "check under construction (Diff.tla oracle); not claimed yet",
 }
